@@ -343,13 +343,24 @@ func (l *Lexer) advanceChar() (rune, bool) {
 // Advance the next `n` characters
 func (l *Lexer) advanceChars(n int) bool {
 	for i := 0; i < n; i++ {
-		_, ok := l.advanceChar()
+		_, ok := l.advanceAnyChar()
 		if !ok {
 			return false
 		}
 	}
 
 	return true
+}
+
+// Advance the next character, whatever it is.
+// Unlike [advanceChar] it keeps track of the line, use it when
+// the character that gets consumed may be a newline.
+func (l *Lexer) advanceAnyChar() (rune, bool) {
+	char, ok := l.advanceChar()
+	if char == '\n' {
+		l.incrementLine()
+	}
+	return char, ok
 }
 
 // Rewinds the cursor back to the previous char.
@@ -909,7 +920,7 @@ func (l *Lexer) character() *token.Token {
 	var lexemeBuff strings.Builder
 
 	if l.matchChar('\\') {
-		next, ok := l.advanceChar()
+		next, ok := l.advanceAnyChar()
 		if !ok {
 			return l.lexError(unterminatedCharLiteralMessage)
 		}
@@ -985,7 +996,7 @@ func (l *Lexer) character() *token.Token {
 			return l.lexError("invalid escape sequence in a character literal")
 		}
 	} else {
-		ch, ok := l.advanceChar()
+		ch, ok := l.advanceAnyChar()
 		if !ok {
 			return l.lexError(unterminatedCharLiteralMessage)
 		}
@@ -1007,7 +1018,7 @@ func (l *Lexer) character() *token.Token {
 func (l *Lexer) rawCharacter() *token.Token {
 	var char string
 
-	ch, ok := l.advanceChar()
+	ch, ok := l.advanceAnyChar()
 	if !ok {
 		return l.lexError(unterminatedCharLiteralMessage)
 	}
@@ -1096,6 +1107,9 @@ func (l *Lexer) numberLiteral(startDigit rune) *token.Token {
 	switch l.peekChar() {
 	case 'i':
 		l.advanceChar()
+		if !isDigit(l.peekChar()) {
+			return l.lexError("invalid sized integer literal")
+		}
 		switch ch, _ := l.advanceChar(); ch {
 		case '6':
 			if l.matchChar('4') {
@@ -1159,6 +1173,9 @@ func (l *Lexer) numberLiteral(startDigit rune) *token.Token {
 	}
 
 	if l.matchChar('f') {
+		if !isDigit(l.peekChar()) {
+			return l.lexError("invalid sized float literal")
+		}
 		switch ch, _ := l.advanceChar(); ch {
 		case '6':
 			if l.matchChar('4') {
@@ -2355,7 +2372,7 @@ func (l *Lexer) scanNormal(afterMethodCallOperator bool) *token.Token {
 		case '"':
 			if l.mode() == stringInterpolationMode {
 				for {
-					_, ok := l.advanceChar()
+					_, ok := l.advanceAnyChar()
 					if !ok {
 						return l.lexError(unterminatedStringError)
 					}
